@@ -7,6 +7,8 @@ mod hooks;
 mod impls;
 mod ops;
 mod source_loader;
+#[cfg(feature = "verif")]
+mod verif;
 
 use crate::{
   byte_code::ByteCode,
@@ -337,6 +339,9 @@ impl Vm {
   fn execute(&mut self, mode: ExecutionMode) -> ExecutionResult {
     unsafe {
       loop {
+        #[cfg(feature = "verif")]
+        crate::verif::tick();
+
         // get the current instruction
         let op_code: ByteCode = ByteCode::from_byte_unchecked(self.read_byte());
 
